@@ -21,6 +21,7 @@ import (
 
 	"github.com/piotrnar/gocoin/lib/btc"
 	"github.com/piotrnar/gocoin/lib/chain"
+	"github.com/piotrnar/gocoin/lib/others/snappy"
 
 	"verifharness/vio"
 )
@@ -95,7 +96,24 @@ func newWorld(o Opts) *world {
 		rnd := rand.New(rand.NewSource(o.Salt*1000003 + int64(id)))
 		raw := make([]byte, n)
 		rnd.Read(raw[:80])
-		switch id % 3 { // content classes for the compressor
+		switch id % 4 { // content classes for the compressor
+		case 3: // break-even: the snappy encoding is exactly as long as the block (found by search)
+			rnd.Read(raw[80:])
+			if n > 200 {
+				base := append([]byte(nil), raw...)
+			search:
+				for t := 4; t < 200; t++ {
+					for _, per := range []int{4, 5, 8, 10, 16, 32} {
+						copy(raw, base)
+						for i := 0; i < t; i++ {
+							raw[80+per+i] = raw[80+i%per]
+						}
+						if len(snappy.Encode(nil, raw)) == n {
+							break search
+						}
+					}
+				}
+			}
 		case 0: // incompressible
 			rnd.Read(raw[80:])
 		case 1: // highly repetitive
